@@ -976,10 +976,12 @@ class EnhancedRetransmissionProcessor(Processor):
         )
 
     def _send_receiver_ready_poll(self) -> None:
+        # Poll the peer (P=1); its answer carries F=1 and stops the monitor timer.
         self._num_receiver_ready_polls_sent += 1
         self._send_s_frame(
             supervision_function=SupervisoryEnhancedControlField.SupervisoryFunction.RR,
-            final=1,
+            final=0,
+            poll=1,
         )
 
     def _get_next_tx_seq(self) -> int:
@@ -1100,10 +1102,12 @@ class EnhancedRetransmissionProcessor(Processor):
         self,
         supervision_function: SupervisoryEnhancedControlField.SupervisoryFunction,
         final: int,
+        poll: int = 0,
     ) -> None:
         self.channel.send_pdu(
             SupervisoryEnhancedControlField(
                 supervision_function=supervision_function,
+                poll=poll,
                 final=final,
                 req_seq=self._req_seq_num,
             )
